@@ -306,3 +306,20 @@ void bad_stale_read__compute_once(void) {
 	ctx->chain_len = 11;
 	ctx->chain[4] = (4 << 8) + 0;
 }
+
+/* FLAG-BOTH: the kind flag is raised under a condition and never lowered */
+void ok_flag__both(const fb_t b) {
+	ctx_t *ctx = core_get();
+	if (fb_cmp_dig(b, 1) == RLC_EQ) {
+		ctx->eb_is_kbltz = 1;
+	} else {
+		ctx->eb_is_kbltz = 0;
+	}
+}
+
+void bad_flag_both__only_set(const fb_t b) {
+	ctx_t *ctx = core_get();
+	if (fb_cmp_dig(b, 1) == RLC_EQ) {
+		ctx->eb_is_kbltz = 1;
+	}
+}
